@@ -154,6 +154,22 @@ def xspec_part(ck, model_ok, tier, replay):
                 and all(getattr(sp, k) == v for k, v in want_attrs if k.isidentifier()) and sp.zz_absent is None
             if not ok:
                 ck.fail("xspec-str-eq-hash-getattr", ex)
+            # ... also after a group has worked with the spec: allocate_id / makegateway store id and execmodel on it, the TEXT is
+            # what it compares, hashes and prints by
+            try:
+                import execnet.multi as _multi
+
+                g_ = _multi.Group()
+                sp2 = XSpec(s)
+                if not any(k in ("id", "execmodel") for k, _ in kvs):
+                    g_.allocate_id(sp2)
+                    sp2.execmodel = "thread"
+                    fresh = XSpec(s)
+                    if not (sp2 == fresh and fresh == sp2 and not (sp2 != fresh) and hash(sp2) == hash(fresh) and str(sp2) == s and sp2 in {fresh} and [fresh].index(sp2) == 0):
+                        ck.fail("xspec-compares-by-more-than-its-text-after-id-allocation", ex)
+                atexit_unregister(g_)
+            except Exception as e:  # noqa
+                ck.fail("xspec-compares-by-more-than-its-text-after-id-allocation:" + type(e).__name__, ex)
         elif expect == "dup":
             if any(piece(k, v).endswith("/") for k, v in kvs[:-1]):
                 continue
